@@ -35,8 +35,9 @@ func (o lruOp) String() string {
 }
 
 // how the abstract keys / values (small numbers) are presented to the cache, which takes interface{}:
-//   rep 0: ints                                   rep 1: string keys, []int values (not comparable with ==)
-//   rep 2: key 0 is the nil interface, the others are *int; values are structs holding a slice
+//
+//	rep 0: ints                                   rep 1: string keys, []int values (not comparable with ==)
+//	rep 2: key 0 is the nil interface, the others are *int; value 2 is the nil interface, the others are structs holding a slice
 type lruVal struct{ S []int }
 
 var lruPtrKeys = func() []*int {
@@ -65,6 +66,9 @@ func lruValue(v, rep int) interface{} {
 	case 1:
 		return []int{v}
 	case 2:
+		if v == 2 {
+			return nil // a stored nil is a value like any other: the entry is live
+		}
 		return lruVal{[]int{v}}
 	}
 	return v
@@ -93,6 +97,8 @@ func lruUnValue(v interface{}) int {
 		return x[0]
 	case lruVal:
 		return x.S[0]
+	case nil:
+		return 2 // presentation 2 stores the nil interface for the abstract value 2
 	}
 	return 0
 }
@@ -135,9 +141,12 @@ func runLRURep(c *valid.LRUCache, ops []lruOp, rep int) (outs, lg, dmp []int64) 
 		}
 	}
 	d := c.Dump()
-	if d != "" {
+	if d != "" || (rep == 2 && c.Len() > 0) { // presentation 2 stores the nil interface, which Dump prints as an empty line
 		for _, line := range strings.Split(d, "\n") {
 			n, _ := strconv.Atoi(strings.Trim(line, "[]{} ")) // a slice value prints as [7], the struct as {[7]}
+			if rep == 2 && (line == "<nil>" || line == "") {  // the nil interface of presentation 2
+				n = 2
+			}
 			dmp = append(dmp, int64(n))
 		}
 	}
